@@ -132,8 +132,14 @@ def gen_value(c, depth, max_arity=2, leaf_kinds=LEAF_KINDS, with_nonplain=False,
             return SymFrozenset(items)
         return frozenset(items)
     if kind == "slice":
-        parts = [gen_value(c, 0, max_arity, ["none", "int", "str"], with_nonplain, label + "s" + str(i)) for i in range(3)]
-        if any(isinstance(x, Sym) for x in parts):
+        parts = []
+        for i in range(3):
+            # a bound is a scalar, None -- or itself an immutable container (a slice of tuples is still a plain value)
+            if c.choose(2, label + "s%d-container-bound" % i) == 1:
+                parts.append((gen_leaf(c, "int"),))
+            else:
+                parts.append(gen_value(c, 0, max_arity, ["none", "int", "str"], with_nonplain, label + "s" + str(i)))
+        if any(isinstance(x, Sym) or _deep_sym(x) for x in parts):
             return SymSlice(*parts)
         try:
             return slice(*parts)
